@@ -24,8 +24,13 @@ EXPLANATION = (
     " R1 also requires the ETag read to sit on the supports_cas branch; R3 requires every pointer write's capability flag to be decided (conditional write iff supports_cas)."
     " (R7) every other function that reads the pointer's ETag and flips the pointer ties the validated version to that read; (R8) the lock owner token is a per-instance uuid4 (shared with C19.R8)."
     ' (R9) supports_cas returns exactly the flag create_lock branches on, and read_file_with_etag takes content and ETag from ONE get_object response. Conditional expressions (`x = read() if supports_cas else NONE`) are branches; records (NamedTuple) carrying the ETag / the owner test are looked through.'
-    ' (R10) validation compares the base with a fresh read under the lock on every path (C01.R2): a definition of the validated object that is not a read is a violation.')
+    ' (R10) validation compares the base with a fresh read under the lock on every path (C01.R2): a definition of the validated object that is not a read is a violation.'
+    ' (R11) metadata files get fresh uuid names (C09.R1): two racers never write the same key. R3: conflict codes are exactly {PreconditionFailed, 412, ConditionalRequestConflict}.')
 NOT_DECIDED = "the schedules themselves; S3's conditional-write semantics"
+
+
+CAS_CONFLICT_CODES = {"PreconditionFailed", "412", "ConditionalRequestConflict"}
+RESPONSE_KEYS_C08 = {"Error", "Code", "ResponseMetadata", "HTTPStatusCode", ""}
 
 
 def check(ctx: Ctx) -> None:
@@ -57,6 +62,10 @@ def check(ctx: Ctx) -> None:
     # but a fresh read under the lock (the base itself, a remembered object), a stale base is CAS-ed over a foreign commit
     from .c01 import r2 as c01_r2
     ctx.shared(c01_r2, "C01.R2", "C08.R10", "the version the CAS is keyed to was validated against a fresh read under the lock")
+    # "even if the lock gives no exclusion at all": two racers write DIFFERENT metadata files (uuid4 names), so the CAS loser's
+    # PUT and its cleanup never touch the file the winner's pointer names - a guessable / time-based name breaks exactly that
+    from .c09 import r1_fresh_names
+    r1_fresh_names(ctx, "C08.R11")
 
 
 def pin_needs_hint(ctx: Ctx, rid: str) -> None:
@@ -478,16 +487,23 @@ def r3(ctx: Ctx) -> None:
         ctx.ob("C08.R3", cas, "exactly one of IfNoneMatch / IfMatch on every path", p, ok, detail)
     hs = handler_nodes(ctx, cas)
     okh = False
+    bad_codes: List[str] = []
     for hn in hs:
         ex = handler_exits(ctx, cas, hn)
         raised = {r.raised for r in ex["raise"]}
         if "CASConflictError" in raised and "reraise" in raised and not ex["fallthrough"] and not ex["return"]:
             for _b, cs, mr, orr, _mo, _oo in code_branches(ctx, cas, hn):
-                if "PreconditionFailed" in cs and "412" in cs and mr == {"CASConflictError"} and "reraise" in orr \
+                # exactly S3's precondition-failure answers: a code more (503 / SlowDown: the PUT may have landed - an ambiguous
+                # outcome read as a clean conflict deletes the version the pointer now names) or a code less (409
+                # ConditionalRequestConflict: the loser of a create race sees a raw ClientError) both break the contract
+                if set(cs) - RESPONSE_KEYS_C08 == CAS_CONFLICT_CODES and mr == {"CASConflictError"} and "reraise" in orr \
                         and "CASConflictError" not in orr:
                     okh = True
+                else:
+                    bad_codes = sorted((set(cs) - RESPONSE_KEYS_C08) ^ CAS_CONFLICT_CODES)
     ctx.ob("C08.R3", cas, "precondition failure -> CASConflictError, everything else re-raised", hs[0] if hs else None, okh,
-           "412 / PreconditionFailed / ConditionalRequestConflict are clean conflicts; other errors stay errors (ambiguous)")
+           "412 / PreconditionFailed / ConditionalRequestConflict are clean conflicts; other errors stay errors (ambiguous)"
+           + (f"; codes that differ from that set: {bad_codes}" if bad_codes and not okh else ""))
     retry = [n for n in g.calls() if any(t.name in ("with_s3_retry", "retry_with_backoff") for t in ctx.eff.callees(cas, n))]
     nested = [nf for nf in cas.nested.values()]
     ctx.ob("C08.R3", cas, "the conditional PUT is not retried", retry[0] if retry else None, not retry and not nested,
